@@ -104,6 +104,9 @@ class MpsWalk:
             if r.status_code >= 500:
                 res.violation('multi-period-manifest-5xx', f'{url} -> {r.status_code}', rp,
                               exception=env.rec.last_exception)
+            else:
+                # the definition was accepted by the API and the options are ordinary ones
+                res.violation('multi-period-manifest-refused', f'{url} -> {r.status_code} {r.data[:120]!r}', rp)
             return
         try:
             doc = M.parse_mpd(r.data, 'http://localhost' + url)
@@ -163,6 +166,14 @@ class MpsWalk:
                 continue
             stream_dir = next(p['stream'] for p in definition['periods'] if p['pid'] == base_pid)
             src_start = M.parse_duration(mp['start']) if isinstance(mp['start'], str) else Fraction(mp['start'])
+            # every track of the definition is present with at least one Representation
+            want_types = {t for t, _ in next(p['tracks'] for p in definition['periods'] if p['pid'] == base_pid)}
+            have_types = {rep.content_type for rep in pv.reps}
+            res.count('period.tracks_checked')
+            if not want_types <= have_types:
+                res.violation('period-track-without-representation',
+                              f'{url}: period {pv.id} defines tracks {sorted(want_types)}, the manifest has '
+                              f'representations for {sorted(have_types)}', rp)
             for rep in pv.reps:
                 self.walk_rep(url, doc, pv, rep, stream_dir, src_start, mode, now, rp, rng)
         ncls = len(definition['periods'])
@@ -364,7 +375,23 @@ def run_shard(ctx: ShardCtx) -> ShardResult:
         for i in range(ndefs):
             definition = gen_definition(rng, ctx.shard * 100000 + i, spk)
             env.clock.set(datetime.datetime(2024, 5, 5, 5, 5, 5, tzinfo=UTC))
-            status, js = create_via_api(env, media, spk, definition)
+            if rng.random() < 0.25:
+                # stored directly (as populate scripts and older databases do): the source offsets keep their
+                # fractions instead of being snapped to a segment start by the API
+                from dlv.mps import add_mps_db
+                role = {'video': 'main', 'audio': 'main', 'text': 'main'}
+                for p_ in definition['periods']:
+                    if rng.random() < 0.6:
+                        p_['start'] = rng.choice([6.5, 10.75, 2.25, 5.5, 9.9, 13.125])
+                        p_['duration'] = min(p_['duration'], SRC_DUR[p_['stream']] - p_['start'] - 2)
+                info = add_mps_db(env, definition['name'], [
+                    {'pid': p_['pid'], 'stream': p_['stream'], 'start': p_['start'], 'duration': p_['duration'],
+                     'tracks': [(t, tid, role[t]) for t, tid in p_['tracks']]} for p_ in definition['periods']])
+                status, js = 200, {'success': True, 'model': {'periods': [
+                    {'pid': q['pid'], 'start': q['start'], 'pk': q['pk']} for q in info['periods']]}}
+                res.count('mps.created_in_db')
+            else:
+                status, js = create_via_api(env, media, spk, definition)
             if status != 200 or not js or not js.get('success'):
                 res.count('mps.create_refused')
                 res.notes.append(f'create refused: {status} {str(js)[:200]}')
@@ -379,6 +406,10 @@ def run_shard(ctx: ShardCtx) -> ShardResult:
                 params = {}
                 if rng.random() < 0.4:
                     params['timeline'] = '1'
+                if rng.random() < 0.3:
+                    # DRM over periods whose streams may or may not have encrypted versions of a track
+                    # (tears has none: the clear file is used)
+                    params['drm'] = rng.choice(['all', 'playready', 'clearkey', 'marlin', 'clearkey-moov,playready-cenc'])
                 if mode == 'live':
                     total = sum(float(p['duration']) for p in definition['periods'])
                     now = W.calendar_instants(rng)
